@@ -16,7 +16,12 @@
     statements followed by the printed down statements are well-formed at every step and end in the old list up to
     order (`Abs.Idx.up_then_down`; the abstract machine does not see the order of the list, `execAll_perm`).
 
-  Missing for the full statement: as for C01 (column attributes, the primary key, drop suppression); covered by
+  * `changed_column_reverted` — **a column that differs is put back**: for a column of a table present on both sides
+    whose type or options (other than COMMENT, up to order) differ, `MigrationColumnDown` of the diffed record prints a
+    MODIFY COLUMN whose definition the reference engine reads as exactly the *old* side's column (the attributes
+    `Table.Diff` kept as `previous`); the down half of `C01.changed_column_modified` (Proofs/Changed.lean).
+
+  Missing for the full statement: as for C01 (a changed primary key, a COMMENT-only difference, drop suppression); covered by
   correspondence + the executable predicate `Spec.c02` on the implementation's printed down migration.
 -/
 import SqlizeModel.Abs.Columns
@@ -170,5 +175,22 @@ example : ∃ d, loadAndDiff {} C01.exOldE C01.exNewE = .ok d ∧
       [(some [], []),
        (some [.drop "i_redef", .create ⟨"i_redef", ["a", "b"], true, "BTREE"⟩, .drop "i_new", .create ⟨"i_old", ["b"], false, "HASH"⟩],
         [.drop "fk_new", .create ⟨"fk_old", "a", "u", "id"⟩])] := ⟨_, by rfl, by decide⟩
+
+/-- a column that differs between the two sides is put back by the down migration: MODIFY COLUMN with the old definition -/
+theorem changed_column_reverted (g : Globals) (hg : g.dialect = .mysql) (rc : Bool)
+    (old new : List Stmt) (dbO dbN : DB) (ho : old.all Stmt.elemSafe = true) (hn : new.all Stmt.elemSafe = true)
+    (hpo : old.all Stmt.plainOpts = true) (hpn : new.all Stmt.plainOpts = true)
+    (heo : execAll rc [] old = some dbO) (hen : execAll rc [] new = some dbN)
+    (d : Migration) (hd : loadAndDiff g old new = .ok d)
+    (t : String) (tbO tbN : TableSpec) (hfo : dbO.find t = some tbO) (hfn : dbN.find t = some tbN)
+    (cN cO : ColSpec) (hcN : cN ∈ tbN.cols) (hcO : cO ∈ tbO.cols) (hname : cO.name = cN.name)
+    (hchg : cO.typ ≠ cN.typ ∨
+      (¬ cO.opts.Perm cN.opts ∧ (∀ k ∈ cO.opts, k.noComment = true) ∧ (∀ k ∈ cN.opts, k.noComment = true))) :
+    ∃ td ∈ d.tables, td.name = t ∧ td.action = .none ∧
+      ∃ cd, Stmt.modifyColumn t cd ∈ (Table.walkCols g t false [] td.cols).1 ∧
+        (colOf cd).2 = false ∧ (colOf cd).1.name = cO.name ∧ (colOf cd).1.typ = cO.typ ∧ (colOf cd).1.opts.Perm cO.opts := by
+  obtain ⟨td, h1, h2, h3, _, h5⟩ :=
+    Sqlize.changed_column_modified g hg rc old new dbO dbN ho hn hpo hpn heo hen d hd t tbO tbN hfo hfn cN cO hcN hcO hname hchg
+  exact ⟨td, h1, h2, h3, h5⟩
 
 end Sqlize.C02
